@@ -33,7 +33,7 @@ ASSUMPTIONS = [
     "cache key injective (C09), restore exact (C06), atomic per-target steps",
 ]
 
-FAMILIES_QUICK = [("edits", 8), ("wipe", 10), ("alias", 6), ("nocache", 8), ("tamper", 5), ("disabled", 4), ("taint", 3)]
+FAMILIES_QUICK = [("edits", 6), ("wipe", 9), ("dirs", 4), ("alias", 5), ("nocache", 6), ("tamper", 4), ("disabled", 3), ("taint", 3)]
 FAMILIES_THOROUGH = [(f, n * 15) for f, n in FAMILIES_QUICK]
 
 
